@@ -183,7 +183,7 @@ def cleared (s : Flags) : Bool := noneOf [s.susceptible, s.exposed, s.infected, 
 def stepArrow : Comp → Comp → Bool
   | .S, .S | .R, .R => true
   | .E, .E | .E, .EI | .E, .I | .E, .R => true
-  | .EI, .EI | .EI, .R => true
+  | .EI, .EI | .EI, .I | .EI, .R => true
   | .I, .I | .I, .R => true
   | _, _ => false
 def infectArrow : Comp → Comp → Bool
@@ -268,6 +268,14 @@ def stepArrow : Comp → Comp → Bool
   | _, _ => false
 def infectArrow : Comp → Comp → Bool
   | .S, .exposed => true
+  | a, b => a == b
+
+/-- the stage part of the partition alone (ignores the `infected` flag) -/
+def stagePartition (s : Flags) : Bool := exactlyOne (s.susceptible :: s.congenital :: stageFlags s)
+
+/-- treatment (a flag writer outside the disease class): a treatable stage may return to susceptible, nothing else moves -/
+def treatArrow : Comp → Comp → Bool
+  | .primary, .S | .secondary, .S | .latentTemp, .S | .latentLong, .S | .tertiary, .S => true
   | a, b => a == b
 end Syphilis
 
